@@ -94,8 +94,11 @@ class C01(Machine):
             "(build / query / mutate / discard+rebuild).  Query patterns are "
             "discovered by introspection. Non-trivial: some query pattern "
             "was evaluated both before and after a mutator on the same "
-            "object. Distinct: class + op names with argument patterns.")
-    probe_names = ("query_after_mutation", "both_raised",
+            "object and returned a value (not an exception) that was "
+            "compared with the twin's. Distinct: class + op names with "
+            "argument patterns.")
+    probe_names = ("query_after_mutation", "value_compared_after_mutation",
+                   "both_raised",
                    "projection_twin_used", "discard_rebuild",
                    "multi_object", "reinit_mutator")
     # informational (zero is fine): query_order_effect, valid_mutator_raised,
@@ -317,10 +320,11 @@ class C01(Machine):
                         val = C.call(invoke, st["obj"], name, kw, model)
                     key = qkey(name, kw)
                     sig.append("q:" + key)
-                    if st["muts"] and key in st["seen"]:
-                        R.nontrivial = True
+                    requery = bool(st["muts"] and key in st["seen"])
+                    if requery:
                         R.probe("query_after_mutation")
                     records.append({
+                        "requery": requery,
                         "step": step, "spec": spec, "model": clone(model),
                         "name": name, "kw": kw, "val": snap(val),
                         "since": list(st["since"]), "allq": list(st["allq"]),
@@ -458,6 +462,10 @@ class C01(Machine):
         tol = (1e-4, 1e-6) if how == "projection" else "tight"
         ok, why = C.same(val, tv, tol)
         if ok:
+            if rec.get("requery") and not isinstance(val, C.Raised):
+                # a real value was compared after a mutation of the object
+                R.nontrivial = True
+                R.probe("value_compared_after_mutation")
             return
         tv2, _ = fresh()
         if not C.same(tv, tv2, tol)[0]:
